@@ -531,6 +531,21 @@ from . import c01 as _c01  # noqa: E402
 from .shared import Renamed as _Renamed  # noqa: E402
 
 
+def rule_digest_encoding(model, rep, R16):
+    """htdigest's digest is md5(user:realm:password) over the bytes of the requested encoding: each text field is converted with the `encoding` argument"""
+    DG = "passlib.handlers.digests"
+    fn = model.func(DG, "htdigest.hash")
+    conv = {}
+    for n in walk_no_nested(fn):
+        if isinstance(n, ast.Call) and ast.unparse(n.func) == "to_bytes" and n.args and isinstance(n.args[0], ast.Name):
+            conv[n.args[0].id] = ast.unparse(n.args[1]) if len(n.args) > 1 else next((ast.unparse(k.value) for k in n.keywords if k.arg == "encoding"), "<default>")
+        if isinstance(n, ast.Call) and isinstance(n.func, ast.Attribute) and n.func.attr == "encode" and isinstance(n.func.value, ast.Name):
+            conv[n.func.value.id] = ast.unparse(n.args[0]) if n.args else "<default>"
+    for fld in ("secret", "user", "realm"):
+        rep.check(conv.get(fld) == "encoding", R16, f"{DG}:htdigest.hash {fld}", f"{fld} converted with {conv.get(fld)!r}", f"`{fld}` is converted to bytes with the `encoding` argument",
+                  witness=f"HtdigestFile(encoding='latin-1').set_password('user', 'r\u00e9alm', 'pw') stores a digest that check_password() rejects (and that differs from md5 of the latin-1 bytes): `{fld}` was encoded with another codec")
+
+
 def run(model, rep):
     rep.explanation = __doc__
     rep.assumptions = ["dict preserves insertion order and `del` removes exactly one key (language semantics)"]
@@ -547,18 +562,7 @@ def run(model, rep):
     # check_password() answers through handler.verify(): verify() must recompute with what hash() was given (user, realm, encoding)
     # the digest is md5(user:realm:password) over the bytes of the *file's* encoding: each of the three text fields is converted with the
     # `encoding` argument (which HtdigestFile passes), never with a fixed or default one
-    DG = "passlib.handlers.digests"
-    fn = model.func(DG, "htdigest.hash")
-    R16 = "C16.m-digest-encoding"
-    conv = {}
-    for n in walk_no_nested(fn):
-        if isinstance(n, ast.Call) and ast.unparse(n.func) == "to_bytes" and n.args and isinstance(n.args[0], ast.Name):
-            conv[n.args[0].id] = ast.unparse(n.args[1]) if len(n.args) > 1 else next((ast.unparse(k.value) for k in n.keywords if k.arg == "encoding"), "<default>")
-        if isinstance(n, ast.Call) and isinstance(n.func, ast.Attribute) and n.func.attr == "encode" and isinstance(n.func.value, ast.Name):
-            conv[n.func.value.id] = ast.unparse(n.args[0]) if n.args else "<default>"
-    for fld in ("secret", "user", "realm"):
-        rep.check(conv.get(fld) == "encoding", R16, f"{DG}:htdigest.hash {fld}", f"{fld} converted with {conv.get(fld)!r}", f"`{fld}` is converted to bytes with the `encoding` argument",
-                  witness=f"HtdigestFile(encoding='latin-1').set_password('user', 'r\u00e9alm', 'pw') stores a digest that check_password() rejects (and that differs from md5 of the latin-1 bytes): `{fld}` was encoded with another codec")
+    rule_digest_encoding(model, rep, "C16.m-digest-encoding")
     from .shared import handler_site_filter
     from pv.handlers import HandlerTable
     only, used = handler_site_filter(model, HandlerTable(model), ("passlib.apache",), extra_names=("htdigest",))
